@@ -8,40 +8,62 @@ Import ListNotations.
 Ltac Zify.zify_post_hook ::= Z.div_mod_to_equations.
 Local Open Scope N_scope.
 
+(* Symbol::from_chars only looks at the characters it consumes: a successful
+   read is unchanged by appending more text *)
+Lemma sym_next_app p s r rest : sym_next p = Ok (Some (s, r)) ->
+  sym_next (p ++ rest) = Ok (Some (s, r ++ rest)).
+Proof.
+  unfold sym_next. destruct p as [|ch r0]; [discriminate|]. cbn [app].
+  destruct (negb (ch =? backslash)); [intros E; injection E as <- <-; reflexivity|].
+  destruct r0 as [|c1 r1]; [discriminate|]. cbn [app].
+  destruct (is_digit c1).
+  - destruct r1 as [|c2 r2]; [discriminate|]. cbn [app]. destruct (negb (is_digit c2)); [discriminate|].
+    destruct r2 as [|c3 r3]; [discriminate|]. cbn [app]. destruct (negb (is_digit c3)); [discriminate|].
+    destruct (sym_dec_max <? _); [discriminate|]. intros E; injection E as <- <-. reflexivity.
+  - destruct (255 <? c1); [discriminate|]. destruct (_ || _); [discriminate|].
+    intros E; injection E as <- <-. reflexivity.
+Qed.
+
+(* the finite table obligation: for each of the 256 octets, the displayed form
+   (whatever escape set and ranges T1 extracted) is read back as exactly one
+   symbol that stands for the octet and is neither the label separator nor the
+   binary-label marker.  Checked by computation, so a change of the escape set
+   in the Rust source re-checks itself. *)
+Definition outcome_is (o : outcome N) (b : N) : bool :=
+  match o with Ok x => x =? b | _ => false end.
+
+Definition display_octet_ok (b : N) : bool :=
+  match sym_next (display_octet b) with
+  | Ok (Some (s, [])) =>
+      outcome_is (into_octet s) b && negb (is_char s sym_dot) && negb (is_simple s sym_bracket)
+  | _ => false
+  end.
+
+Definition all_octets : list N := map N.of_nat (seq 0 256).
+
+Lemma display_table : forallb display_octet_ok all_octets = true.
+Proof. vm_compute. reflexivity. Qed.
+
+Lemma in_all_octets b : b < 256 -> In b all_octets.
+Proof.
+  intros H. unfold all_octets. apply in_map_iff. exists (N.to_nat b). split; [apply N2Nat.id|].
+  apply in_seq. lia.
+Qed.
+
 (* every displayed octet is read back as one symbol that stands for the octet
    and is neither the label separator nor the binary-label marker *)
 Lemma sym_display_octet b rest : b < 256 ->
   exists s, sym_next (display_octet b ++ rest) = Ok (Some (s, rest)) /\ into_octet s = Ok b /\
             is_char s sym_dot = false /\ is_simple s sym_bracket = false.
 Proof.
-  intros Hb. unfold display_octet, display_simple_escaped, display_plain_lo, display_plain_hi_excl.
-  destruct (existsb (N.eqb b) [32; 46; 92; 34; 59; 40; 41]) eqn:E.
-  - cbn [existsb] in E. rewrite !orb_true_iff, !N.eqb_eq in E.
-    decompose [or] E; try discriminate; subst b; eexists; (split; [reflexivity|]); repeat split; reflexivity.
-  - cbn [existsb] in E. rewrite !orb_false_iff, !N.eqb_neq in E.
-    destruct E as (E1 & E2 & E3 & E4 & E5 & E6 & E7 & _).
-    destruct ((32 <=? b) && (b <? 127)) eqn:P; cbn [negb].
-    + apply andb_true_iff in P as [P1 P2]. apply N.leb_le in P1. apply N.ltb_lt in P2.
-      exists (SChar b). cbn [app]. unfold sym_next, backslash.
-      assert (Hne : (b =? 92) = false) by (apply N.eqb_neq; assumption). rewrite Hne. cbn [negb].
-      split; [reflexivity|]. split; [|split; [|reflexivity]].
-      * unfold into_octet, octet_char_lo, octet_char_hi.
-        assert (H1 : (b <? 128) = true) by (apply N.ltb_lt; lia).
-        assert (H2 : (32 <=? b) = true) by (apply N.leb_le; lia).
-        assert (H3 : (b <=? 126) = true) by (apply N.leb_le; lia).
-        rewrite H1, H2, H3. reflexivity.
-      * unfold is_char, sym_dot. apply N.eqb_neq. assumption.
-    + assert (D1 : is_digit (48 + b / 100) = true)
-        by (unfold is_digit; apply andb_true_iff; split; apply N.leb_le; lia).
-      assert (D2 : is_digit (48 + (b / 10) mod 10) = true)
-        by (unfold is_digit; apply andb_true_iff; split; apply N.leb_le; lia).
-      assert (D3 : is_digit (48 + b mod 10) = true)
-        by (unfold is_digit; apply andb_true_iff; split; apply N.leb_le; lia).
-      assert (V : (48 + b / 100 - 48) * 100 + (48 + (b / 10) mod 10 - 48) * 10 + (48 + b mod 10 - 48) = b) by lia.
-      exists (SDecimal b). unfold dec3. cbn [app]. unfold sym_next, backslash, sym_dec_max.
-      change (92 =? 92) with true. cbn [negb]. rewrite D1, D2, D3. cbn [negb]. rewrite V.
-      assert (Hv : (255 <? b) = false) by (apply N.ltb_ge; lia). rewrite Hv.
-      repeat split; reflexivity.
+  intros Hb. pose proof display_table as T. rewrite forallb_forall in T.
+  specialize (T b (in_all_octets b Hb)). unfold display_octet_ok in T.
+  destruct (sym_next (display_octet b)) as [[[s [|x r]]|]|e|p|] eqn:E; try discriminate.
+  apply andb_true_iff in T as [T T3]. apply andb_true_iff in T as [T1 T2].
+  exists s. split; [apply (sym_next_app _ _ _ rest) in E; exact E|].
+  split; [|split; [apply negb_true_iff; exact T2|apply negb_true_iff; exact T3]].
+  unfold outcome_is in T1. destruct (into_octet s) as [o|e|p|]; try discriminate.
+  apply N.eqb_eq in T1. subst o. reflexivity.
 Qed.
 
 Lemma display_octet_nonempty b : (1 <= length (display_octet b))%nat.
